@@ -16,6 +16,7 @@ use crate::streams::hex;
 
 pub enum Read { Ok(duke::tree::class::ClassFile), Err(String), Panic(String) }
 pub fn duke_read(bytes: &[u8]) -> Read {
+	crate::streams::crumb_class(bytes);
 	let b = bytes.to_vec();
 	match guarded(move || duke::read_class(&mut Cursor::new(b)).map_err(|e| format!("{e:#}"))) {
 		Err(p) => Read::Panic(p), Ok(Err(e)) => Read::Err(e), Ok(Ok(c)) => Read::Ok(c),
@@ -32,7 +33,7 @@ pub fn has_field_target_in_method(c: &RawClass) -> bool {
 	}))
 }
 
-fn compare(r: &mut Report, what: &str, bytes: &[u8], truth: &ClassFacts, got: &ClassFacts) {
+pub fn compare(r: &mut Report, what: &str, bytes: &[u8], truth: &ClassFacts, got: &ClassFacts) {
 	let truth = truth.with_defined_access_bits();
 	if &truth == got { return; }
 	// known findings, each recognised as narrowly as the defect: compare with exactly that fact removed
@@ -175,7 +176,7 @@ fn g_code_in(code: &raw::CodeAttr) -> Option<String> {
 		}
 	}
 	if smt > 1 { return None; }
-	Some(format!("({{| ci_code := {}; ci_exc := [{}]; ci_lines := [{}]; ci_ranges := [{}]; ci_frames := [{}]; ci_points := [{}] |}}, [{}])",
+	Some(format!("({{| ci_code := {}; ci_exc := [{}]; ci_lines := [{}]; ci_ranges := [{}]; ci_frames := [{}]; ci_cldc := None; ci_points := [{}] |}}, [{}])",
 		fbh::gal::gnums(code.code.iter().map(|b| *b as u64)),
 		code.exception_table.iter().map(|e| format!("({}, {}, {})", e.start_pc, e.end_pc, e.handler_pc)).collect::<Vec<_>>().join("; "),
 		lines.join("; "), ranges.join("; "),
